@@ -314,13 +314,9 @@ pub fn run(rt: &tokio::runtime::Runtime, n: usize, cap: usize, ops: &[[u64; 4]])
                             )
                         }
                     };
-                    if failed && o[0] == 3 && started == Some(c) {
-                        // what Transport::accept does on this error: give the connection up
-                        u.gone.insert(c);
-                        drop(set);
-                    } else {
-                        u.sets.insert(c, set);
-                    }
+                    // (before fix 2c7c81a a failed "established" made Transport::accept give the
+                    // connection up; the report no longer fails because of a dead protocol)
+                    u.sets.insert(c, set);
                     if started == Some(c) {
                         code = if failed { 3 } else { 0 };
                     } else if before.contains(&c) {
